@@ -148,7 +148,9 @@ func runC12(c *Ctx) {
 			continue
 		}
 		nm := canon(describeArg(cs, 0), cs)
-		want := `fmt.Sprintf("%s/%g.json", [alloc:REPORT.Week, alloc:REPORT.X])`
+		// (canonical rendering of string building: Sprintf("%s/%g.json", …), concatenation with
+		// strconv.FormatFloat(X, 'g', -1, 64), … all read the same)
+		want := `(((alloc:REPORT.Week + "/") + fmtg(alloc:REPORT.X)) + ".json")`
 		r.Check("C12.name", "handleUpload/object name", gd.Pos(cs.Pos()), nm == want, "the object must be named <Week>/<X>.json from the validated report; got "+nm)
 		bd := describe(cs.Common().Value)
 		r.Check("C12.name", "handleUpload/bucket", gd.Pos(cs.Pos()), strings.Contains(bd, "uploadBucket"), "got "+bd)
